@@ -100,7 +100,7 @@ ReqOf(ln) == [cmd |-> ln.q.cmd, name |-> ln.q.name, lname |-> ln.q.lname, hasnam
               addG |-> ln.q.addGp, addW |-> ln.q.addWt, addsing |-> ln.q.addsing, nopts |-> ln.q.nopts, pattern |-> ln.q.pattern,
               opts |-> ln.q.opts, matches |-> ln.q.matches, file |-> FileOf(ln.q),
               plan |-> IF ln.q.cmd = "reloadconfig" THEN PlanOf(l + 1) ELSE [chg |-> <<>>, del |-> <<>>, add |-> <<>>],
-              rovalid |-> ln.q.rovalid, adduid |-> ln.q.adduid]
+              rovalid |-> ln.q.rovalid, adduid |-> ln.q.adduid, arbchg |-> ln.q.arbchg]
 
 Tk(ms) == (ms + 50) \div 100
 
